@@ -72,7 +72,7 @@ FeedDeposit(c) ==   \* oracle CreateFeed: the creation deposit goes to the depos
 \* mint module; the gauges release r[d], of which dust[d] stays in the storage module
 MintDust == 2   \* C13: "fewer than three base units per block"
 Block(e, toOther, dm, r, dust) ==
-  LET keep == IF Bug("fullmint") THEN e - (e \div 2) ELSE dm
+  LET keep == IF Bug("fullmint") THEN e ELSE dm   \* design error: nothing of the emission is handed out
       out  == e - keep IN
   /\ e >= 0 /\ e <= emission /\ dm >= 0 /\ dm <= MintDust /\ dm <= e /\ toOther >= 0 /\ toOther <= out
   /\ \A d \in Denoms : r[d] >= 0 /\ r[d] <= bal["gauges"][d] /\ dust[d] >= 0 /\ dust[d] <= r[d]
